@@ -3,6 +3,7 @@
 -/
 import PgVerif.Model.Heap
 import PgVerif.Spec.Heap
+import PgVerif.Proofs.HeapGuard
 namespace PgVerif.Proofs
 open PgVerif PgVerif.Model
 
@@ -86,7 +87,7 @@ theorem parsePage_from_parseHeapTuple (pg : Bytes) (ts : List HeapTuple) (h : pa
         | ok items =>
           simp only [hi, ok_bind] at h
           intro t ht
-          obtain ⟨it, _, hf⟩ := collectM_ok _ _ _ h t ht
+          obtain ⟨it, _, hf⟩ := pageLoop_ok _ _ _ _ _ h t ht
           unfold pageItem at hf
           split at hf
           · simp at hf
